@@ -45,7 +45,7 @@ def main():
                 "design_ref": ref,
             },
             "level_note": "Trusted: the harness hashers/RNGs/reference models (unit-tested, small), rustc, and that the hook counters are placed on the paths they name. Reach is the workload; nothing outside the generated configurations/histories is covered.",
-            "technique": "runtime monitoring: " + tech,
+            "technique": "runtime monitoring: " + tech + "; every run is additionally watched by a CPU-time liveness monitor (a call into the crate that does not return is reported as <ID>/call-does-not-return) and a collector for panics escaping nested worker loops; violations replay by work item or cell (./check replay)",
         })
     m = {
         "version": 1,
